@@ -11,6 +11,22 @@ def mstHook (env : Env F) (r : Run) (k : Nat) (perms : List (Nat × List Nat)) (
   let o := Fs.Mst.resolve S env r.g r.elev boruvka carve perm Fs.Gen.maxLowDegree
   { r with g := o.g, elev := look o.elev 0.0, hang := r.hang || o.hang }
 
+/-- `bgraph <k|b> <elev…> [reps]`: basin graph built directly on the current single-direction graph -/
+def callBgraph (c : Call) (st : St) : List String :=
+  let n := st.topo.n
+  let g := st.g
+  let b := basins n g st.mask st.isBase
+  let f := fromList 0.0 (((findInp c "bg_elev").getD []).map hexF)
+  let perm := ((findInps c "perm").headD []).tail.map natOf
+  let useB := c.toks.getD 1 "k" == "b"
+  let bg := Fs.Mst.basinGraph S st.topo st.mask st.isBase (recv0 g) g.dfs (look b.labels 0) b.outlets f useB perm
+    Fs.Gen.maxLowDegree
+  let sgn (x : Nat) : String := if x = Fs.Mst.none then "-1" else toString x
+  [ line "bg_outlets" (joinNats b.outlets),
+    line "bg_edges" (" ".intercalate (bg.edges.toList.map (fun e =>
+      toString e.l0 ++ " " ++ toString e.l1 ++ " " ++ sgn e.p0 ++ " " ++ sgn e.p1 ++ " " ++ fHex e.pe ++ " " ++ fHex e.pl))),
+    line "bg_tree" (joinNats bg.tree) ]
+
 structure DSt where
   st : St := {}
   grid : GridSpec := .none
@@ -34,6 +50,7 @@ def runFlowOk (st : St) (c : Call) : St × List String :=
   | "update" :: _ => callUpdate c st mstHook
   | "acc" :: _ => (st, callAcc "" c st.topo.n st.g)
   | "basins" :: _ => (st, callBasins "" st.topo.n st.g st.mask st.isBase)
+  | "bgraph" :: _ => (st, callBgraph c st)
   | "snapcall" :: nm :: what :: rest =>
     let refused (k : Nat) (lbl : String) : List String :=
       -- a snapshot graph is read-only: the guard must be present in the mutator and the snapshot
